@@ -667,6 +667,16 @@ Proof.
 Qed.
 
 (* ================================================================= AsyncFIFOBuffered *)
+(* neither reset asserted *)
+Definition no_rsts (tr : list (ev * ain)) : Prop :=
+  Forall (fun x => i_rst (snd x) = false /\ i_rrst (snd x) = false) tr.
+
+Lemma no_rsts_of tr : no_rst tr -> no_rrst tr -> no_rsts tr.
+Proof.
+  intros H1. induction H1 as [|x r Hx Hr IH]; intros H2; [constructor|].
+  inversion H2; subst. constructor; [split; assumption|apply IH; assumption].
+Qed.
+
 Lemma blvl_bits_eq n : 1 <= n -> blvl_bits n = n + 1.
 Proof.
   intros Hn. unfold blvl_bits, bit_length. pose proof (pow2_pos n ltac:(lia)).
@@ -690,10 +700,10 @@ Proof.
   split; [reflexivity|]. split; [reflexivity|]. lia.
 Qed.
 
-Lemma BInv_step n width st mB e i : 1 <= n -> BInv n st mB -> i_rst i = false ->
+Lemma BInv_step n width st mB e i : 1 <= n -> BInv n st mB -> i_rst i = false -> i_rrst i = false ->
   BInv n (buf_step n width st e i) (mon_step width (o_wrdy n (inner st)) (b_rdy st) (b_data st) mB e i).
 Proof.
-  intros Hn (mI & g & I & Hw & Hr & Hl) Hrst.
+  intros Hn (mI & g & I & Hw & Hr & Hl) Hrst Hrrst.
   exists (mon_step width (o_wrdy n (inner st)) (o_rrdy (inner st)) (o_rdata (inner st)) mI e (b_inner_in st i)),
          (gstep mI g e).
   pose proof (Inv_levels n _ _ _ Hn I) as (_ & Hrl & _).
@@ -701,27 +711,27 @@ Proof.
   split; [|split; [|split]].
   - unfold buf_step. cbn [inner]. apply Inv_step; [assumption|assumption|exact Hrst].
   - unfold mon_step, b_inner_in. cbn [wlog i_wen i_wdata]. rewrite Hw. reflexivity.
-  - unfold mon_step, buf_step, b_inner_in, b_inner_ren. rewrite Hrst. cbn [a_pre rlog i_ren b_rdy b_data].
+  - unfold mon_step, buf_step, b_inner_in, b_inner_ren. rewrite Hrst, Hrrst, !andb_false_r. cbn [a_pre rlog i_ren b_rdy b_data].
     rewrite Hr.
     destruct e, (b_rdy st), (i_ren i), (o_rrdy (inner st)); cbn [has_r andb orb negb];
       rewrite ?app_nil_r, <- ?app_assoc; reflexivity.
-  - unfold buf_step. cbn [b_lvl]. destruct (has_r e); [|exact Hl].
+  - unfold buf_step. cbn [b_lvl]. rewrite Hrrst, andb_false_r. destruct (has_r e); [|exact Hl].
     rewrite Hrst. cbn [a_pre]. rewrite blvl_bits_eq by lia.
     assert (2 ^ 1 <= 2 ^ n) by (apply pow2_mono; lia). change (2 ^ 1) with 2 in *.
     rewrite Z.mod_small; destruct (b_rcb st i); cbn [Z.b2z]; lia.
 Qed.
 
-Lemma BInv_run n width tr : 1 <= n -> no_rst tr -> forall sm, BInv n (fst sm) (snd sm) ->
+Lemma BInv_run n width tr : 1 <= n -> no_rsts tr -> forall sm, BInv n (fst sm) (snd sm) ->
   BInv n (fst (brun n width tr sm)) (snd (brun n width tr sm)).
 Proof.
-  intros Hn H. induction H as [|x r Hx Hr IH]; intros sm I; [exact I|].
+  intros Hn H. induction H as [|x r [Hx Hx2] Hr IH]; intros sm I; [exact I|].
   cbn [brun fold_left]. apply IH. unfold brun_step. cbn [fst snd]. rewrite Hx. cbn [a_pre].
   apply BInv_step; assumption.
 Qed.
 
-Lemma BInv_reach n width tr : 1 <= n -> no_rst tr ->
+Lemma BInv_reach n width tr : 1 <= n -> no_rst tr -> no_rrst tr ->
   BInv n (fst (brun n width tr (bstate0 n, mon0))) (snd (brun n width tr (bstate0 n, mon0))).
-Proof. intros Hn H. apply BInv_run; [assumption|assumption|]. apply BInv_init. lia. Qed.
+Proof. intros Hn H H2. apply BInv_run; [assumption|apply no_rsts_of; assumption|]. apply BInv_init. lia. Qed.
 
 Lemma app_if_length (l : list Z) (b : bool) d :
   Z.of_nat (length (l ++ (if b then [d] else []))) = Z.of_nat (length l) + Z.b2z b.
@@ -864,21 +874,21 @@ Definition BInvX (n : Z) (st : bfifo) (mB mI : mon) (g : ghost) : Prop :=
 Definition binner_mon (n width : Z) (st : bfifo) (mI : mon) (e : ev) (i : ain) : mon :=
   mon_step width (o_wrdy n (inner st)) (o_rrdy (inner st)) (o_rdata (inner st)) mI e (b_inner_in st i).
 
-Lemma BInvX_step n width st mB mI g e i : 1 <= n -> BInvX n st mB mI g -> i_rst i = false ->
+Lemma BInvX_step n width st mB mI g e i : 1 <= n -> BInvX n st mB mI g -> i_rst i = false -> i_rrst i = false ->
   BInvX n (buf_step n width st e i) (mon_step width (o_wrdy n (inner st)) (b_rdy st) (b_data st) mB e i)
         (binner_mon n width st mI e i) (gstep mI g e).
 Proof.
-  intros Hn (I & Hw & Hr & Hl) Hrst. unfold binner_mon.
+  intros Hn (I & Hw & Hr & Hl) Hrst Hrrst. unfold binner_mon.
   pose proof (Inv_levels n _ _ _ Hn I) as (_ & Hrl & _).
   pose proof (pow2_pos n ltac:(lia)) as Hp. pose proof (pow2_succ n ltac:(lia)) as E2.
   split; [|split; [|split]].
   - unfold buf_step. cbn [inner]. apply Inv_step; [assumption|assumption|exact Hrst].
   - unfold mon_step, b_inner_in. cbn [wlog i_wen i_wdata]. rewrite Hw. reflexivity.
-  - unfold mon_step, buf_step, b_inner_in, b_inner_ren. rewrite Hrst. cbn [a_pre rlog i_ren b_rdy b_data].
+  - unfold mon_step, buf_step, b_inner_in, b_inner_ren. rewrite Hrst, Hrrst, !andb_false_r. cbn [a_pre rlog i_ren b_rdy b_data].
     rewrite Hr.
     destruct e, (b_rdy st), (i_ren i), (o_rrdy (inner st)); cbn [has_r andb orb negb];
       rewrite ?app_nil_r, <- ?app_assoc; reflexivity.
-  - unfold buf_step. cbn [b_lvl]. destruct (has_r e); [|exact Hl].
+  - unfold buf_step. cbn [b_lvl]. rewrite Hrrst, andb_false_r. destruct (has_r e); [|exact Hl].
     rewrite Hrst. cbn [a_pre]. rewrite blvl_bits_eq by lia.
     assert (2 ^ 1 <= 2 ^ n) by (apply pow2_mono; lia). change (2 ^ 1) with 2 in *.
     rewrite Z.mod_small; destruct (b_rcb st i); cbn [Z.b2z]; lia.
@@ -900,14 +910,14 @@ Definition psi (g : ghost) (mI : mon) (b : bool) : Z :=
   if (phi g mI =? 0) && negb b then 0 else phi g mI + 1.
 
 Lemma bdrain_step n width st mB mI g e i : 1 <= n -> BInvX n st mB mI g ->
-  i_rst i = false -> i_wen i = false -> i_ren i = true ->
+  i_rst i = false -> i_rrst i = false -> i_wen i = false -> i_ren i = true ->
   let st' := buf_step n width st e i in
   let mB' := mon_step width (o_wrdy n (inner st)) (b_rdy st) (b_data st) mB e i in
   wlog mB' = wlog mB /\
   psi (gstep mI g e) (binner_mon n width st mI e i) (b_rdy st') <= Z.max 0 (psi g mI (b_rdy st) - Z.b2z (has_r e)).
 Proof.
-  intros Hn X Hrst Hwen Hren. cbv zeta.
-  pose proof (BInvX_step n width st mB mI g e i Hn X Hrst) as (I' & _).
+  intros Hn X Hrst Hrrst Hwen Hren. cbv zeta.
+  pose proof (BInvX_step n width st mB mI g e i Hn X Hrst Hrrst) as (I' & _).
   destruct X as (I & Hw & Hr & Hl).
   pose proof (drain_step n width (inner st) mI g e (b_inner_in st i) Hn I Hwen) as D. cbv zeta in D.
   destruct D as (_ & _ & D3 & D4).
@@ -917,7 +927,7 @@ Proof.
   unfold buf_step in I' |- *. cbn [inner b_rdy] in I' |- *.
   destruct (phi_bounds n _ _ _ Hn I) as [P1 _]. destruct (phi_bounds n _ _ _ Hn I') as [P1' _].
   pose proof (phi0_not_rdy n _ _ _ Hn I) as Z0.
-  unfold b_inner_ren. rewrite Hren, Hrst. cbn [orb a_pre]. rewrite andb_true_r.
+  unfold b_inner_ren. rewrite Hren, Hrst, Hrrst, ?andb_false_r. cbn [orb a_pre]. rewrite andb_true_r.
   unfold psi.
   set (p := phi g mI) in *. set (p' := phi (gstep mI g e) (binner_mon n width st mI e i)) in *.
   destruct (has_r e); cbn [Z.b2z] in *.
@@ -940,7 +950,7 @@ Proof. induction tr as [|x r IH]; intros s; [reflexivity|]. cbn [bgrun brun fold
 Definition BInvS (n : Z) (s : bfifo * mon * (mon * ghost)) : Prop :=
   BInvX n (fst (fst s)) (snd (fst s)) (fst (snd s)) (snd (snd s)).
 
-Lemma bdrain_run n width tr : 1 <= n -> no_rst tr -> no_write tr -> all_ren tr -> forall s, BInvS n s ->
+Lemma bdrain_run n width tr : 1 <= n -> no_rsts tr -> no_write tr -> all_ren tr -> forall s, BInvS n s ->
   let s' := bgrun n width tr s in
   BInvS n s' /\
   wlog (snd (fst s')) = wlog (snd (fst s)) /\
@@ -952,12 +962,12 @@ Proof.
     destruct s as [[st mB] [mI g]]. unfold BInvS in I. cbn [fst snd] in *.
     destruct I as (I & _). destruct (phi_bounds n _ _ _ Hn I). unfold psi.
     destruct ((phi g mI =? 0) && negb (b_rdy st)); lia.
-  - inversion Hr as [|? ? Hrx Hrr]; subst. inversion Hw as [|? ? Hwx Hwr]; subst.
+  - inversion Hr as [|? ? Hrx Hrr]; subst. destruct Hrx as [Hrx Hrx2]. inversion Hw as [|? ? Hwx Hwr]; subst.
     inversion Ha as [|? ? Hax Har]; subst.
     cbn [bgrun fold_left]. fold (bgrun n width r (bgrun_step n width s x)).
     destruct s as [[st mB] [mI g]]. destruct x as [e i]. unfold BInvS in I. cbn [fst snd] in *.
-    pose proof (BInvX_step n width st mB mI g e i Hn I Hrx) as I1.
-    pose proof (bdrain_step n width st mB mI g e i Hn I Hrx Hwx Hax) as D. cbv zeta in D. destruct D as (D1 & D2).
+    pose proof (BInvX_step n width st mB mI g e i Hn I Hrx Hrx2) as I1.
+    pose proof (bdrain_step n width st mB mI g e i Hn I Hrx Hrx2 Hwx Hax) as D. cbv zeta in D. destruct D as (D1 & D2).
     assert (E : bgrun_step n width (st, mB, (mI, g)) (e, i) =
                 (buf_step n width st e i, mon_step width (o_wrdy n (inner st)) (b_rdy st) (b_data st) mB e i,
                  (binner_mon n width st mI e i, gstep mI g e))).
@@ -970,22 +980,23 @@ Proof.
     split; [exact J1|]. split; [rewrite J2; exact D1|]. lia.
 Qed.
 
-Lemma bdrain_final n width tr1 tr2 : 1 <= n -> no_rst tr1 -> no_rst tr2 -> no_write tr2 -> all_ren tr2 ->
+Lemma bdrain_final n width tr1 tr2 : 1 <= n -> no_rst tr1 -> no_rrst tr1 -> no_rst tr2 -> no_rrst tr2 ->
+  no_write tr2 -> all_ren tr2 ->
   let sm1 := breach n width tr1 in
   let sm2 := brun n width tr2 sm1 in
   held (snd sm1) + 3 <= r_edges tr2 ->
   wlog (snd sm2) = wlog (snd sm1) /\ rlog (snd sm2) = wlog (snd sm1).
 Proof.
-  intros Hn H1 H2 Hw Ha. cbv zeta. intros Hh.
+  intros Hn H1 H1r H2 H2r Hw Ha. cbv zeta. intros Hh.
   assert (I1 : BInvS n (bgrun n width tr1 (bstate0 n, mon0, (mon0, ghost0)))).
-  { clear Hh. assert (G : forall tr, no_rst tr -> forall s, BInvS n s -> BInvS n (bgrun n width tr s)).
-    { intros tr H. induction H as [|x r Hx Hr IH]; intros s I; [exact I|].
+  { clear Hh. assert (G : forall tr, no_rsts tr -> forall s, BInvS n s -> BInvS n (bgrun n width tr s)).
+    { intros tr H. induction H as [|x r [Hx Hx2] Hr IH]; intros s I; [exact I|].
       cbn [bgrun fold_left]. apply IH. destruct s as [[st mB] [mI g]]. destruct x as [e i].
       unfold BInvS, bgrun_step, brun_step in *. cbn [fst snd] in *. rewrite Hx. cbn [a_pre].
       apply BInvX_step; assumption. }
-    apply G; [assumption|]. unfold BInvS. cbn [fst snd]. split; [apply Inv_init; lia|].
+    apply G; [apply no_rsts_of; assumption|]. unfold BInvS. cbn [fst snd]. split; [apply Inv_init; lia|].
     cbn. pose proof (pow2_pos n ltac:(lia)). repeat split; lia. }
-  destruct (bdrain_run n width tr2 Hn H2 Hw Ha _ I1) as (J1 & J2 & J3).
+  destruct (bdrain_run n width tr2 Hn (no_rsts_of _ H2 H2r) Hw Ha _ I1) as (J1 & J2 & J3).
   set (s1 := bgrun n width tr1 (bstate0 n, mon0, (mon0, ghost0))) in *.
   assert (F1 : fst s1 = breach n width tr1) by (unfold s1, breach; rewrite bgrun_fst; reflexivity).
   set (s2 := bgrun n width tr2 s1) in *.
@@ -1029,14 +1040,15 @@ Qed.
 Lemma held_binv n st mB mI g : BInvX n st mB mI g -> held mB = held mI + Z.b2z (b_rdy st).
 Proof. intros (_ & W1 & R1 & _). unfold held. rewrite W1, R1, app_if_length. lia. Qed.
 
-Lemma bvis_step n width st mB mI g e i : 1 <= n -> BInvX n st mB mI g -> i_rst i = false -> i_wen i = false ->
+Lemma bvis_step n width st mB mI g e i : 1 <= n -> BInvX n st mB mI g -> i_rst i = false -> i_rrst i = false ->
+  i_wen i = false ->
   let st' := buf_step n width st e i in
   let mB' := mon_step width (o_wrdy n (inner st)) (b_rdy st) (b_data st) mB e i in
   lam (gstep mI g e) (binner_mon n width st mI e i) mB' (b_rdy st') >=
     Z.min 3 (lam g mI mB (b_rdy st) + Z.b2z (has_r e)).
 Proof.
-  intros Hn X Hrst Hwen. cbv zeta.
-  pose proof (BInvX_step n width st mB mI g e i Hn X Hrst) as X'.
+  intros Hn X Hrst Hrrst Hwen. cbv zeta.
+  pose proof (BInvX_step n width st mB mI g e i Hn X Hrst Hrrst) as X'.
   pose proof (held_binv _ _ _ _ _ X) as HB. pose proof (held_binv _ _ _ _ _ X') as HB'.
   destruct X as (I & Hw & Hr & Hl). destruct X' as (I' & _).
   pose proof (drain_step n width (inner st) mI g e (b_inner_in st i) Hn I Hwen) as D. cbv zeta in D.
@@ -1049,7 +1061,7 @@ Proof.
                held mB - Z.b2z (has_r e && (b_rdy st && i_ren i))).
   { unfold mon_step, held. rewrite Hwen, !andb_false_r. cbn [wlog rlog].
     destruct (has_r e && (b_rdy st && i_ren i)); rewrite ?length_snoc; cbn [Z.b2z]; lia. }
-  unfold buf_step in HB' |- *. cbn [b_rdy inner] in HB' |- *. rewrite Hrst in HB' |- *. cbn [a_pre] in HB' |- *.
+  unfold buf_step in HB' |- *. cbn [b_rdy inner] in HB' |- *. rewrite Hrst, Hrrst, ?andb_false_r in HB' |- *. cbn [a_pre] in HB' |- *.
   unfold b_inner_ren in HB' |- *.
   unfold lam. rewrite HM. clear HM.
   set (v := vis g mI) in *. set (v' := vis (gstep mI g e) (binner_mon n width st mI e i)) in *.
@@ -1064,7 +1076,7 @@ Proof.
     + rewrite Z.sub_0_r, Z.add_0_r. destruct (Bool.eqb (b_rdy st) (0 <? held mB)); lia.
 Qed.
 
-Lemma bvis_run n width tr : 1 <= n -> no_rst tr -> no_write tr -> forall s, BInvS n s ->
+Lemma bvis_run n width tr : 1 <= n -> no_rsts tr -> no_write tr -> forall s, BInvS n s ->
   let s' := bgrun n width tr s in
   BInvS n s' /\
   lam (snd (snd s')) (fst (snd s')) (snd (fst s')) (b_rdy (fst (fst s'))) >=
@@ -1074,11 +1086,11 @@ Proof.
   - cbn [bgrun fold_left]. change (r_edges []) with 0. split; [exact I|].
     destruct s as [[st mB] [mI g]]. cbn [fst snd]. pose proof (vis_le2 g mI). unfold lam.
     destruct (vis g mI <? 2), (Bool.eqb (b_rdy st) (0 <? held mB)); lia.
-  - inversion Hr as [|? ? Hrx Hrr]; subst. inversion Hw as [|? ? Hwx Hwr]; subst.
+  - inversion Hr as [|? ? Hrx Hrr]; subst. destruct Hrx as [Hrx Hrx2]. inversion Hw as [|? ? Hwx Hwr]; subst.
     cbn [bgrun fold_left]. fold (bgrun n width r (bgrun_step n width s x)).
     destruct s as [[st mB] [mI g]]. destruct x as [e i]. unfold BInvS in I. cbn [fst snd] in *.
-    pose proof (BInvX_step n width st mB mI g e i Hn I Hrx) as I1.
-    pose proof (bvis_step n width st mB mI g e i Hn I Hrx Hwx) as D. cbv zeta in D.
+    pose proof (BInvX_step n width st mB mI g e i Hn I Hrx Hrx2) as I1.
+    pose proof (bvis_step n width st mB mI g e i Hn I Hrx Hrx2 Hwx) as D. cbv zeta in D.
     assert (E : bgrun_step n width (st, mB, (mI, g)) (e, i) =
                 (buf_step n width st e i, mon_step width (o_wrdy n (inner st)) (b_rdy st) (b_data st) mB e i,
                  (binner_mon n width st mI e i, gstep mI g e))).
@@ -1091,28 +1103,28 @@ Proof.
     split; [exact J1|]. lia.
 Qed.
 
-Lemma BInvS_reach n width tr : 1 <= n -> no_rst tr ->
+Lemma BInvS_reach n width tr : 1 <= n -> no_rst tr -> no_rrst tr ->
   BInvS n (bgrun n width tr (bstate0 n, mon0, (mon0, ghost0))).
 Proof.
-  intros Hn H1.
-  assert (G : forall tr, no_rst tr -> forall s, BInvS n s -> BInvS n (bgrun n width tr s)).
-  { intros tr0 H. induction H as [|x r Hx Hr IH]; intros s I; [exact I|].
+  intros Hn H1 H1r.
+  assert (G : forall tr, no_rsts tr -> forall s, BInvS n s -> BInvS n (bgrun n width tr s)).
+  { intros tr0 H. induction H as [|x r [Hx Hx2] Hr IH]; intros s I; [exact I|].
     cbn [bgrun fold_left]. apply IH. destruct s as [[st mB] [mI g]]. destruct x as [e i].
     unfold BInvS, bgrun_step, brun_step in *. cbn [fst snd] in *. rewrite Hx. cbn [a_pre].
     apply BInvX_step; assumption. }
-  apply G; [assumption|]. unfold BInvS. cbn [fst snd]. split; [apply Inv_init; lia|].
+  apply G; [apply no_rsts_of; assumption|]. unfold BInvS. cbn [fst snd]. split; [apply Inv_init; lia|].
   cbn. pose proof (pow2_pos n ltac:(lia)). repeat split; lia.
 Qed.
 
-Lemma bvis_final n width tr1 tr2 : 1 <= n -> no_rst tr1 -> no_rst tr2 -> no_write tr2 ->
+Lemma bvis_final n width tr1 tr2 : 1 <= n -> no_rst tr1 -> no_rrst tr1 -> no_rst tr2 -> no_rrst tr2 -> no_write tr2 ->
   let sm1 := breach n width tr1 in
   let sm2 := brun n width tr2 sm1 in
   3 <= r_edges tr2 ->
   wlog (snd sm2) = wlog (snd sm1) /\ bo_rrdy (fst sm2) = (0 <? held (snd sm2)).
 Proof.
-  intros Hn H1 H2 Hw. cbv zeta. intros H3.
-  pose proof (BInvS_reach n width tr1 Hn H1) as I1.
-  destruct (bvis_run n width tr2 Hn H2 Hw _ I1) as (J1 & J2).
+  intros Hn H1 H1r H2 H2r Hw. cbv zeta. intros H3.
+  pose proof (BInvS_reach n width tr1 Hn H1 H1r) as I1.
+  destruct (bvis_run n width tr2 Hn (no_rsts_of _ H2 H2r) Hw _ I1) as (J1 & J2).
   set (s1 := bgrun n width tr1 (bstate0 n, mon0, (mon0, ghost0))) in *.
   assert (F1 : fst s1 = breach n width tr1) by (unfold s1, breach; rewrite bgrun_fst; reflexivity).
   set (s2 := bgrun n width tr2 s1) in *.
@@ -1131,4 +1143,180 @@ Proof.
     destruct (vis g2 mI2 <? 2) eqn:V2; [pose proof (vis_le2 g2 mI2); destruct (vis g1 mI1 <? 2), (Bool.eqb (b_rdy st1) (0 <? held mB1)); lia|].
     destruct (Bool.eqb (b_rdy st2) (0 <? held mB2)) eqn:EQ; [apply Bool.eqb_prop; exact EQ|].
     destruct (vis g1 mI1 <? 2), (Bool.eqb (b_rdy st1) (0 <? held mB1)); lia.
+Qed.
+
+(* ================================================================= write-domain reset *)
+(* progress of a reset episode: RSz k st says that the first k flushing steps have been done
+   (1: write-side registers and reset flops, 2: produce stage 0, 3: produce stage 1, 4: consume_r_*,
+    5: consume stage 0, 6: consume stage 1) *)
+Definition RSz (k : Z) (st : afifo) : Prop :=
+  (1 <= k -> pwb st = 0 /\ pwg st = 0 /\ cwb st = 0 /\ wlvl st = 0 /\ af0 st = true /\ af1 st = true) /\
+  (2 <= k -> ps0 st = 0) /\ (3 <= k -> ps1 st = 0) /\ (4 <= k -> crg st = 0 /\ crb st = 0) /\
+  (5 <= k -> cs0 st = 0) /\ (6 <= k -> cs1 st = 0).
+
+Lemma RSz_weaken k k' st : k' <= k -> RSz k st -> RSz k' st.
+Proof. intros H (A & B & C & D & E & F). repeat split; intros; try apply A; try apply B; try apply C; try apply D; try apply E; try apply F; lia. Qed.
+
+Lemma gray_dec_0 w : 0 <= w -> gray_dec w 0 = 0.
+Proof. intros H. rewrite <- gray_enc_0 at 1. apply gray_dec_enc; [assumption|]. pose proof (pow2_pos w H). lia. Qed.
+
+Definition rdelta (k : Z) (e : ev) : Z :=
+  if (has_w e && ((k =? 0) || (k =? 4) || (k =? 5))) || (has_r e && ((k =? 1) || (k =? 2) || (k =? 3))) then 1 else 0.
+
+Lemma RSz_step n width st e i k : 0 <= n -> 0 <= k <= 6 -> i_rst i = true -> RSz k st ->
+  RSz (k + rdelta k e) (async_step n width st e i).
+Proof.
+  intros Hn Hk Hrst (A & B & C & D & E & F).
+  pose proof (gray_dec_0 (n + 1) ltac:(lia)) as G0.
+  assert (K : k = 0 \/ k = 1 \/ k = 2 \/ k = 3 \/ k = 4 \/ k = 5 \/ k = 6) by lia.
+  unfold async_step. rewrite Hrst. cbn [a_pre pwb pwg crb crg ps0 ps1 cs0 cs1 cwb wlvl mem rdat af0 af1 rrst].
+  destruct K as [-> | [-> | [-> | [-> | [-> | [-> | ->]]]]]]; destruct e;
+    match goal with |- RSz ?kk _ => let v := eval vm_compute in kk in change kk with v end;
+    unfold RSz; cbn [has_w has_r pwb pwg crb crg ps0 ps1 cs0 cs1 cwb wlvl mem rdat af0 af1 rrst];
+    repeat match goal with
+           | H : ?a <= ?b -> _ |- _ => first [ specialize (H ltac:(lia)) | clear H ]
+           end;
+    repeat match goal with H : _ /\ _ |- _ => destruct H end;
+    repeat split; intros; try lia; try reflexivity; try assumption; try congruence;
+    try (match goal with H : ps1 st = 0 |- _ => rewrite H end; exact G0).
+Qed.
+
+Lemma asteps_cons n width x tr st :
+  asteps n width (x :: tr) st = asteps n width tr (async_step n width st (fst x) (snd x)).
+Proof. reflexivity. Qed.
+
+Lemma w_edges_cons x tr : w_edges (x :: tr) = Z.b2z (has_w (fst x)) + w_edges tr.
+Proof. unfold w_edges. cbn [filter]. destruct (has_w (fst x)); cbn [length Z.b2z]; lia. Qed.
+Lemma w_edges_nonneg tr : 0 <= w_edges tr.
+Proof. unfold w_edges. lia. Qed.
+
+Lemma rdelta_range k e : 0 <= rdelta k e <= 1.
+Proof. unfold rdelta. destruct (_ || _); lia. Qed.
+
+Lemma RSz_run_mono n width tr : 0 <= n -> all_rst tr -> forall st k, 0 <= k <= 6 -> RSz k st ->
+  RSz k (asteps n width tr st).
+Proof.
+  intros Hn H. induction H as [|x r Hx Hr IH]; intros st k Hk R; [exact R|].
+  rewrite asteps_cons. apply IH; [assumption|].
+  apply (RSz_weaken (k + rdelta k (fst x))); [pose proof (rdelta_range k (fst x)); lia|].
+  apply RSz_step; assumption.
+Qed.
+
+(* phase 1: one write edge *)
+Lemma RSz_run_w0 n width tr : 0 <= n -> all_rst tr -> forall st, 1 <= w_edges tr -> RSz 1 (asteps n width tr st).
+Proof.
+  intros Hn H. induction H as [|x r Hx Hr IH]; intros st Hw; [change (w_edges []) with 0 in Hw; lia|].
+  rewrite asteps_cons. rewrite w_edges_cons in Hw.
+  destruct (has_w (fst x)) eqn:HW; cbn [Z.b2z] in Hw.
+  - apply RSz_run_mono; [assumption|assumption|lia|].
+    assert (R0 : RSz 0 st) by (repeat split; intros; lia).
+    pose proof (RSz_step n width st (fst x) (snd x) 0 Hn ltac:(lia) Hx R0) as S.
+    unfold rdelta in S. rewrite HW in S. cbn in S. exact S.
+  - apply IH. lia.
+Qed.
+
+(* phase 2: three read edges take stage 1 to stage 4 *)
+Lemma RSz_run_r n width tr : 0 <= n -> all_rst tr -> forall st k, 1 <= k <= 4 -> RSz k st ->
+  4 - k <= r_edges tr -> RSz 4 (asteps n width tr st).
+Proof.
+  intros Hn H. induction H as [|x r Hx Hr IH]; intros st k Hk R Hc.
+  - change (r_edges []) with 0 in Hc. assert (k = 4) by lia. subst. exact R.
+  - rewrite asteps_cons. rewrite r_edges_cons in Hc.
+    pose proof (RSz_step n width st (fst x) (snd x) k Hn ltac:(lia) Hx R) as S.
+    destruct (Z.eq_dec k 4) as [->|Nk].
+    + apply RSz_run_mono; [assumption|assumption|lia|].
+      apply (RSz_weaken (4 + rdelta 4 (fst x))); [pose proof (rdelta_range 4 (fst x)); lia|exact S].
+    + destruct (has_r (fst x)) eqn:HR; cbn [Z.b2z] in Hc.
+      * assert (D : rdelta k (fst x) = 1).
+        { unfold rdelta. rewrite HR. assert (K : k = 1 \/ k = 2 \/ k = 3) by lia.
+          destruct K as [-> | [-> | ->]]; cbn; rewrite ?orb_true_r; reflexivity. }
+        rewrite D in S. apply (IH _ (k + 1)); [lia|exact S|lia].
+      * apply (IH _ k); [lia| |lia].
+        apply (RSz_weaken (k + rdelta k (fst x))); [pose proof (rdelta_range k (fst x)); lia|exact S].
+Qed.
+
+(* phase 3: two write edges take stage 4 to stage 6 *)
+Lemma RSz_run_w4 n width tr : 0 <= n -> all_rst tr -> forall st k, 4 <= k <= 6 -> RSz k st ->
+  6 - k <= w_edges tr -> RSz 6 (asteps n width tr st).
+Proof.
+  intros Hn H. induction H as [|x r Hx Hr IH]; intros st k Hk R Hc.
+  - change (w_edges []) with 0 in Hc. assert (k = 6) by lia. subst. exact R.
+  - rewrite asteps_cons. rewrite w_edges_cons in Hc.
+    pose proof (RSz_step n width st (fst x) (snd x) k Hn ltac:(lia) Hx R) as S.
+    destruct (Z.eq_dec k 6) as [->|Nk].
+    + apply RSz_run_mono; [assumption|assumption|lia|].
+      apply (RSz_weaken (6 + rdelta 6 (fst x))); [pose proof (rdelta_range 6 (fst x)); lia|exact S].
+    + destruct (has_w (fst x)) eqn:HW; cbn [Z.b2z] in Hc.
+      * assert (D : rdelta k (fst x) = 1).
+        { unfold rdelta. rewrite HW. assert (K : k = 4 \/ k = 5) by lia.
+          destruct K as [-> | ->]; cbn; reflexivity. }
+        rewrite D in S. apply (IH _ (k + 1)); [lia|exact S|lia].
+      * apply (IH _ k); [lia| |lia].
+        apply (RSz_weaken (k + rdelta k (fst x))); [pose proof (rdelta_range k (fst x)); lia|exact S].
+Qed.
+
+Lemma asteps_app n width t1 t2 st : asteps n width (t1 ++ t2) st = asteps n width t2 (asteps n width t1 st).
+Proof. unfold asteps. apply fold_left_app. Qed.
+
+Lemma all_rst_app t1 t2 : all_rst (t1 ++ t2) -> all_rst t1 /\ all_rst t2.
+Proof. unfold all_rst. apply Forall_app. Qed.
+
+Lemma asteps_mem_len n width tr : forall st, length (mem (asteps n width tr st)) = length (mem st).
+Proof.
+  induction tr as [|x r IH]; intros st; [reflexivity|]. rewrite asteps_cons, IH.
+  unfold async_step. cbn [mem]. destruct (_ && _); [rewrite upd_nth_length|]; destruct (i_rst (snd x)); reflexivity.
+Qed.
+
+Lemma arun_fst n width tr : forall sm, fst (arun n width tr sm) = asteps n width tr (fst sm).
+Proof. induction tr as [|x r IH]; intros sm; [reflexivity|]. cbn [arun fold_left]. rewrite asteps_cons. apply IH. Qed.
+
+(* a flushed state is a fresh FIFO: the invariant holds with empty logs and zero counters *)
+Lemma flushed_Inv n st : 0 <= n -> RSz 6 st -> length (mem st) = Z.to_nat (2 ^ n) -> Inv n st mon0 ghost0.
+Proof.
+  intros Hn (A & B & C & D & E & F) Hl.
+  destruct (A ltac:(lia)) as (A1 & A2 & A3 & A4 & A5 & A6). destruct (D ltac:(lia)) as [D1 D2].
+  specialize (B ltac:(lia)). specialize (C ltac:(lia)). specialize (E ltac:(lia)). specialize (F ltac:(lia)).
+  pose proof (pow2_pos n Hn). pose proof (pow2_pos (n + 1) ltac:(lia)).
+  constructor; cbn [Wc Rc wlog rlog mon0 ghost0 gP0 gP1 gC0 gC1 gCB length Z.of_nat];
+    unfold Wc, Rc; cbn [wlog rlog mon0 length Z.of_nat]; rewrite ?Z.mod_0_l by lia; rewrite ?gray_enc_0;
+    try assumption; try lia; try reflexivity.
+  all: try (split; [exact Hl|intros k Hk; lia]).
+  all: try (split; intros _; [reflexivity|split; [assumption|reflexivity]]).
+Qed.
+
+Lemma reset_flushes n width tr st : 0 <= n -> suff_reset tr -> RSz 6 (asteps n width tr st).
+Proof.
+  intros Hn (Hall & t1 & t2 & t3 & -> & H1 & H2 & H3).
+  apply all_rst_app in Hall. destruct Hall as [Ha1 Ha23]. apply all_rst_app in Ha23. destruct Ha23 as [Ha2 Ha3].
+  rewrite !asteps_app.
+  apply (RSz_run_w4 n width t3 Hn Ha3 _ 4); [lia| |lia].
+  apply (RSz_run_r n width t2 Hn Ha2 _ 1); [lia| |lia].
+  apply RSz_run_w0; assumption.
+Qed.
+
+(* after a sufficient reset episode, from ANY state, the FIFO is a fresh FIFO *)
+Lemma reset_recovers n width tr st m : 1 <= n -> length (mem st) = Z.to_nat (2 ^ n) -> suff_reset tr ->
+  Inv n (fst (arun n width tr (st, m))) mon0 ghost0.
+Proof.
+  intros Hn Hl Hs. rewrite arun_fst. cbn [fst].
+  apply flushed_Inv; [lia|apply reset_flushes; [lia|assumption]|]. rewrite asteps_mem_len. exact Hl.
+Qed.
+
+(* memory length is an invariant of every run from power-on, resets included *)
+Lemma areach_mem_len n width tr : 0 <= n -> length (mem (fst (areach n width tr))) = Z.to_nat (2 ^ n).
+Proof. intros Hn. unfold areach. rewrite arun_fst, asteps_mem_len. cbn [fst astate0 mem]. apply repeat_length. Qed.
+
+(* all safety properties of a reset-free continuation after a sufficient reset, with a fresh monitor *)
+Lemma safe_after_reset n width tr0 trr tr : 1 <= n -> suff_reset trr -> no_rst tr ->
+  let st1 := fst (arun n width trr (areach n width tr0)) in
+  let sm2 := arun n width tr (st1, mon0) in
+  exists g, Inv n (fst sm2) (snd sm2) g.
+Proof.
+  intros Hn Hs Hr. cbv zeta.
+  assert (I1 : Inv n (fst (arun n width trr (areach n width tr0))) mon0 ghost0).
+  { destruct (areach n width tr0) as [st m] eqn:E.
+    apply reset_recovers; [assumption| |assumption].
+    pose proof (areach_mem_len n width tr0 ltac:(lia)) as L. rewrite E in L. exact L. }
+  pose proof (InvS_run n width tr Hn Hr (fst (arun n width trr (areach n width tr0)), mon0, ghost0) I1) as I.
+  unfold InvS in I. rewrite grun_fst in I. cbn [fst] in I. eexists. exact I.
 Qed.
